@@ -10,6 +10,7 @@ mod mgen;
 mod c01;
 mod extract;
 mod c11;
+mod c06;
 mod jsonmut;
 
 use std::collections::HashMap;
@@ -55,6 +56,7 @@ fn main() {
         "c01" => c01::run(&o),
         "extract" => extract::run(&o),
         "c11" => c11::run(&o),
+        "c06" => c06::run(&o),
         "c09" => c01::run_c09(&o),
         other => {
             eprintln!("unknown stream {other}");
